@@ -18,15 +18,12 @@ import (
 	"testing"
 	"time"
 
-	"github.com/ava-labs/avalanchego/database"
-	"github.com/ava-labs/avalanchego/database/leveldb"
 	"github.com/ava-labs/avalanchego/ids"
 	"github.com/ava-labs/avalanchego/snow/engine/common"
 	"github.com/ava-labs/avalanchego/snow/engine/enginetest"
 	"github.com/ava-labs/avalanchego/snow/snowtest"
 	"github.com/ava-labs/avalanchego/utils/logging"
 	"github.com/ava-labs/avalanchego/x/merkledb"
-	"github.com/prometheus/client_golang/prometheus"
 
 	"github.com/ava-labs/hypersdk/api"
 	"github.com/ava-labs/hypersdk/auth"
@@ -110,15 +107,15 @@ type node struct {
 	hvm      *vm.VM
 	snowCtx  *avasnow.Context
 	toEngine chan common.Message
-	avaDB    database.Database
 }
 
 var fixedChainID = ids.ID{0x76, 0x6d, 0x78} // "vmx"
 
 // startNode initialises a VM on dataDir. A panic inside Initialize is
 // returned as initPanic (it is behaviour of the code under test, not of the
-// harness). The avalanchego `db` argument is an on-disk leveldb below dataDir
-// (snow.VM currently ignores it; it is persistent all the same).
+// harness). The avalanchego `db` argument is nil, as in vm/vmtest: snow.VM.Initialize
+// discards it (`_ database.Database`), every persistent store of the node (state,
+// results, block index, indexer) lives under snowCtx.ChainDataDir = dataDir.
 func startNode(t *testing.T, f *vm.Factory, dataDir string, genesisBytes, configBytes []byte, extra ...vm.Option) (n *node, initErr error, initPanic string) {
 	hvm, err := f.New(extra...)
 	if err != nil {
@@ -129,20 +126,15 @@ func startNode(t *testing.T, f *vm.Factory, dataDir string, genesisBytes, config
 	n.snowCtx.Log = logging.NoLog{}
 	n.snowCtx.ChainDataDir = dataDir
 	n.snowCtx.NodeID = ids.BuildTestNodeID([]byte{1})
-	n.avaDB, err = leveldb.New(dataDir+"/avadb", nil, logging.NoLog{}, prometheus.NewRegistry())
-	if err != nil {
-		return nil, fmt.Errorf("harness leveldb: %w", err), ""
-	}
 	func() {
 		defer func() {
 			if p := recover(); p != nil {
 				initPanic = fmt.Sprintf("%v\n%s", p, debug.Stack())
 			}
 		}()
-		initErr = n.snowVM.Initialize(context.Background(), n.snowCtx, n.avaDB, genesisBytes, nil, configBytes, n.toEngine, nil, &enginetest.Sender{T: t})
+		initErr = n.snowVM.Initialize(context.Background(), n.snowCtx, nil, genesisBytes, nil, configBytes, n.toEngine, nil, &enginetest.Sender{T: t})
 	}()
 	if initErr != nil || initPanic != "" {
-		_ = n.avaDB.Close()
 		return nil, initErr, initPanic
 	}
 	return n, nil, ""
@@ -159,9 +151,7 @@ func (n *node) normalOp(ctx context.Context) error {
 }
 
 func (n *node) shutdown(ctx context.Context) error {
-	err := n.snowVM.Shutdown(ctx)
-	_ = n.avaDB.Close()
-	return err
+	return n.snowVM.Shutdown(ctx)
 }
 
 // nodeReport is what the C18 oracle compares between the restarted node and
